@@ -37,7 +37,8 @@ VARIABLES cur, defs, env, last, depth, mg
 vars == <<cur, defs, env, last, depth, mg>>
 Node == <<cur, defs, env>>
 View == <<cur, defs, env, depth, mg>>
-Id   == <<TLCFP(cur), TLCFP(defs), TLCFP(env)>>      \* identity of a node in the emitted graph (3 x 32 bits)
+Id   == <<TLCFP(cur), TLCFP(<<"s1", cur>>), TLCFP(<<cur, "s2">>), TLCFP(defs), TLCFP(<<defs, "s">>), TLCFP(env), TLCFP(<<"s", env>>)>>
+       \* identity of a node in the emitted graph: TLCFP gives 32 bits, so several differently salted fingerprints per component
 
 Leaf    == {"a", "b", "i", "t1", "t2", "e.p", "l.0", "l.1"}
 Targets == {"t1", "t2"}
